@@ -67,8 +67,14 @@ class Place:
             self.root = f"/s{os.getpid()}_{tag}"
             self.url = "vtrace://" + self.root
 
-    def put(self, name, data):
+    def put(self, name, data, replace=False):
         if self.fsname in ("local", "file"):
+            if replace:  # delivered the way rsync / a download manager does it: a new file renamed over the old one (new inode)
+                tmp = os.path.join(os.path.dirname(self.dir), f".incoming_{name}")
+                with open(tmp, "wb") as f:
+                    f.write(data)
+                os.replace(tmp, os.path.join(self.dir, name))
+                return
             with open(os.path.join(self.dir, name), "wb") as f:
                 f.write(data)
         elif self.fsname == "memory":
@@ -250,8 +256,9 @@ class Session:
 
     # ------------------------------------------------------------------ environment
     def deliver(self, l, v):
+        replace = self.rng.random() < 0.5
         for name, data in self.built[(l, v)].files.items():
-            self.place[l].put(name, data)
+            self.place[l].put(name, data, replace=replace)
             with open(os.path.join(self.twin[l], name), "wb") as f:
                 f.write(data)
         self.cur[l] = v
